@@ -326,7 +326,7 @@ Proof.
   set (tm := tmo (t_cfg c)) in *. set (rt := retries (t_cfg c)) in *.
   unfold minit, expected.
   destruct (number_blocks (t_wrap c) 0%N (spec_blocks c)) as [lb ob] eqn:Enb.
-  unfold transfer.
+  unfold transfer, transfer_r.
   (* final part shared by all endings *)
   assert (Fin : forall s r now, m_fail s = None -> m_now s = now ->
             match r with
@@ -353,7 +353,7 @@ Proof.
   - (* no OACK: data from the start *)
     set (s0 := {| m_exp := lb; m_over := ob; m_out := PError 0; m_tsend := 0; m_count := 0; m_now := 0;
                   m_mode := MStart; m_fail := None |}).
-    destruct (send_blocks (t_cfg c) 0%N (spec_blocks c) 0 (t_events c)) as [[[r n] e] l] eqn:E.
+    destruct (send_blocks (t_cfg c) 0%N (spec_blocks c) 0 (t_events c)) as [[[r n] e] l] eqn:E. cbn [snd].
     destruct (send_blocks_ok (t_cfg c) tm_pos v_cur (spec_blocks c) 0%N s0 0 (t_events c) r n e l)
       as (s1 & R1 & R2 & R3 & R4 & R5); auto.
     { repeat split; auto. }
@@ -377,15 +377,15 @@ Proof.
     set (s0 := {| m_exp := POack (oa1 :: oar) :: lb; m_over := ob; m_out := PError 0; m_tsend := 0; m_count := 0;
                   m_now := 0; m_mode := MStart; m_fail := None |}).
     destruct (send_tries (t_cfg c) (S (retries (t_cfg c))) (POack (oa1 :: oar)) 0%N 0 (t_events c))
-      as [[[o n1] e1] l1] eqn:E1.
+      as [[[o n1] e1] l1] eqn:E1. cbn [snd].
     assert (Hfs : mstep tm rt s0 (TSend 0 client (POack (oa1 :: oar))) = msent s0 (POack (oa1 :: oar)) lb 1).
     { apply (first_send (t_cfg c)); [repeat split; auto|reflexivity]. }
     destruct (send_tries_ok (t_cfg c) tm_pos v_cur (retries (t_cfg c)) s0 (POack (oa1 :: oar)) 0 (t_events c)
                 o n1 e1 l1 _ eq_refl Hfs eq_refl eq_refl eq_refl eq_refl eq_refl ltac:(cbn; lia) E1)
       as (s1 & R1 & R2 & R3 & R4 & R5 & R6 & R7 & R8).
     cbn [msent m_exp m_over s0] in R3, R4.
-    destruct o.
-    + destruct (send_blocks (t_cfg c) 0%N (spec_blocks c) n1 e1) as [[[r n] e] l] eqn:E.
+    destruct o; cbn [snd].
+    + destruct (send_blocks (t_cfg c) 0%N (spec_blocks c) n1 e1) as [[[r n] e] l] eqn:E. cbn [snd].
       destruct (send_blocks_ok (t_cfg c) tm_pos v_cur (spec_blocks c) 0%N s1 n1 e1 r n e l)
         as (s2 & Q1 & Q2 & Q3 & Q4 & Q5); auto.
       { repeat split; auto. }
